@@ -2,6 +2,7 @@ package harness
 
 import (
 	"encoding/json"
+	"errors"
 	"fmt"
 	"hash/fnv"
 	"os"
@@ -268,6 +269,10 @@ func RunWith[C any](t *testing.T, r *Runner, kind string, gen func(*rapid.T) *C,
 	rapid.Check(t, func(rt *rapid.T) {
 		c := gen(rt)
 		if err := exec1(r, c, check); err != nil {
+			var he *HarnessError
+			if errors.As(err, &he) {
+				rt.Fatalf("inconclusive: %v", err)
+			}
 			f := writeReplay(r, c, err)
 			r.mu.Lock()
 			r.violations = 1
@@ -462,3 +467,19 @@ func (e *Errs) Err() error {
 
 // IsKnownClass reports whether class is a listed known finding.
 func (r *Runner) IsKnownClass(class string) bool { return r.knownClasses[class] }
+
+// HarnessError marks a failure of the machinery itself (scratch directory,
+// materialiser, helper process). It is never reported as a violation: the
+// driver maps it to "inconclusive" (exit 2).
+type HarnessError struct{ Err error }
+
+func (e *HarnessError) Error() string { return "harness error: " + e.Err.Error() }
+func (e *HarnessError) Unwrap() error { return e.Err }
+
+// Infra wraps err as a HarnessError (nil stays nil).
+func Infra(err error) error {
+	if err == nil {
+		return nil
+	}
+	return &HarnessError{Err: err}
+}
